@@ -56,7 +56,8 @@ def scenario(draw) -> Dict[str, Any]:
         # refresh of a cached record rather than a new record
         'pre': draw(st.sampled_from([None, None, 1, 1, 2])) if inj is not None and inj['off'] >= -1000 else None,
         # the ServiceInfo object was registered and unregistered on this instance once before (only when B exists before the owner)
-        'prior': draw(st.sampled_from([False, False, True])),
+        # ('other-name': under another instance name, changed through the public `name` setter afterwards)
+        'prior': draw(st.sampled_from([False, False, True, 'other-name'])),
         # a peer asks for the SRV record of every candidate name and for the address records of the newcomer's host, in one packet, at
         # these offsets from the start of the registration (i.e. while it probes or announces): the answers must not disturb what
         # the announcements carry, and nothing may be answered for a name that was given up
@@ -119,7 +120,7 @@ class Exec:
             if case.get('prior'):
                 # the very ServiceInfo object of the registration under test has been registered and unregistered on this instance
                 # before, when nobody else used the name: whatever it memoised then must not leak into the second registration
-                prior_info = sim.make_service_info({'type': TYPE, 'name': cand(1), 'port': 7000, 'server': 'newcomer.local.',
+                prior_info = sim.make_service_info({'type': TYPE, 'name': cand(1) if case['prior'] is True else 'Earlier.' + TYPE, 'port': 7000, 'server': 'newcomer.local.',
                                                     'addrs': case['addrs'], 'props': '0161', 'host_ttl': case['host_ttl'],
                                                     'other_ttl': case['other_ttl']})
                 task = await b.azc.async_register_service(prior_info, strict=not case.get('non_strict'))
@@ -128,6 +129,8 @@ class Exec:
                 task = await b.azc.async_unregister_service(prior_info)
                 await task
                 await asyncio.sleep(2.0)
+                if case['prior'] == 'other-name':
+                    prior_info.name = cand(1)
         if case['owner'] != 'none':
             a = w.add_host('A', socks=[('v4', '10.0.0.1')])
             await a.zc.async_wait_for_start()
